@@ -454,8 +454,10 @@ def queries(tier):
         nw = len(sh.wildcards)
         if nw < 2 or len(sh.literals) < 2 or (not T and picked >= 5):
             continue
+        sizes = list(sh.holes or sh.deep or ())
+        if len(sizes) != nw or nw > 3:
+            continue
         picked += 1
-        sizes = list(sh.holes)
         out.append(Q("rebuild/%s" % sh.tag, make_rebuild(sh, sizes),
                      "rule %s: an incomplete url() call (last parameter missing), then the round trip, then the same build again "
                      "on the same route object; symbolic text of len <= %s at the wildcards" % (sh.text, " / ".join(map(str, sizes))),
